@@ -9,4 +9,30 @@ namespace RdVerif
 /-- `{nuc: x / sum(readouts) for nuc, x in readouts}` -/
 def fracs (xs : List Rat) : List Rat := xs.map (fun x => x / xs.sum)
 
+/-- what the three read-outs see of one nuclide of the inventory: its stored number of atoms, its
+decay constant and its atomic mass (`inventory.py:296-390`, `converters.py:60-140`) -/
+structure Nuc where
+  N : Rat
+  lam : Rat
+  mass : Rat
+
+/-- `activities()` in Bq: `number_to_activity(N) = N * lambda` -/
+def activityReadouts (ns : List Nuc) : List Rat := ns.map (fun n => n.N * n.lam)
+/-- `masses()` in g: `number_to_mass(N) = N / avogadro * atomic_mass` -/
+def massReadouts (av : Rat) (ns : List Nuc) : List Rat := ns.map (fun n => n.N / av * n.mass)
+/-- `moles()` in mol: `number_to_moles(N) = N / avogadro` -/
+def moleReadouts (av : Rat) (ns : List Nuc) : List Rat := ns.map (fun n => n.N / av)
+
+/-- `activity_fractions()`, `mass_fractions()`, `mole_fractions()` from the stored contents -/
+def activityFractions (ns : List Nuc) : List Rat := fracs (activityReadouts ns)
+def massFractions (av : Rat) (ns : List Nuc) : List Rat := fracs (massReadouts av ns)
+def moleFractions (av : Rat) (ns : List Nuc) : List Rat := fracs (moleReadouts av ns)
+
+/-- the constructor's conversion of an amount given as a mass in g, an amount of substance in mol
+or an activity in Bq to a number of atoms (`converters.py`: `mass_to_number`, `moles_to_number`,
+`activity_to_number`) -/
+def fromMass (av : Rat) (g lam mass : Rat) : Nuc := ⟨g / mass * av, lam, mass⟩
+def fromMoles (av : Rat) (mol lam mass : Rat) : Nuc := ⟨mol * av, lam, mass⟩
+def fromActivity (bq lam mass : Rat) : Nuc := ⟨bq / lam, lam, mass⟩
+
 end RdVerif
